@@ -117,6 +117,19 @@ CHECKS['C12'] = dict(
     technique='Lean 4 proof (re-encoding invariance of the reader) + metamorphic run of the real validator',
     design='DESIGN.md §3 C12')
 
+CHECKS['C08'] = dict(
+    text='Lean theorems on the models of x12xml_simple / xmlwriter / xmlx12_simple: after every segment the open-element stack spells '
+         'exactly the map path of the matched node (stack_invariant, seg_nesting), a repeated loop opens a fresh element '
+         '(loop_repeat_fresh, fresh_instances), the document is balanced (xml_balanced), decoding the five entities inverts text and '
+         'attribute escaping (unescape_escape, escape_safe), rebuilding a segment from its XML gives the expected segment and the whole '
+         'document round-trips (rebuild_identity, doc_roundtrip), under the per-map hypotheses wfIds and noSiblingLoopIdPrefix (evaluated '
+         'exhaustively over all shipped maps by the compiled model and independently in Python on every run). Tied to /repo by generated '
+         'documents (markup characters, blanks, non-ASCII, 70+ delimiter triples): real XML parsed with xml.etree, nesting compared with '
+         'the matched nodes, converted back with the real xmlx12_simple and compared; event stream compared with the model.',
+    note=COMMON_NOTE + ' xml.etree is trusted to parse well-formed XML; data characters exclude C0 controls and the fixed output delimiters of xmlx12_simple; X12Writer (trailers) is covered by C11.',
+    technique='Lean 4 proof (stack invariant, balance, escape inverse, rebuild identity) + round-trip differential on generated documents',
+    design='DESIGN.md §3 C08')
+
 PENDING_REASON = 'check under construction in this session (see DESIGN.md §3); not yet claimed'
 
 
